@@ -25,7 +25,8 @@ import (
 //           (thorough) cuts for longer streams; reader buffers {32,33,47,64,4096,8192}
 // oracle    decode(encode(v)) = v; encode(decode(canonical bytes)) = bytes; a chunked stream of
 //           messages decodes to exactly those messages, consuming exactly their bytes (a sentinel
-//           follows), earlier results intact after later decodes; inline = array form;
+//           follows), earlier results intact after later decodes; 300 repetitions of one null/empty/nested
+//           message followed by other values through one decoder; inline = array form;
 //           btoi64 = strconv.ParseInt; itoa = strconv.FormatInt
 // ---------------------------------------------------------------------------
 
@@ -392,6 +393,35 @@ func c10run(env sched.Env) *sched.Report {
 			want, werr := strconv.ParseInt(s, 10, 64)
 			if (gerr != nil) != (werr != nil) || (gerr == nil && got != want) {
 				fail("btoi64-differs-from-strconv", fmt.Sprintf("input %q: got %d,%v want %d,%v", s, got, gerr, want, werr), c10case{Kind: "btoi", Text: s})
+			}
+		}
+	}
+	// (f) long concatenations through ONE decoder: 300 repetitions of a unit (null/empty/nested messages),
+	// followed by every value of the grammar; whatever was decoded before must not change what comes later
+	if env.Shard == 0 {
+		units := []resp.Value{resp.NullArray(), resp.Array(), resp.NullBulk(), resp.BulkS(""), resp.Array(resp.NullArray()),
+			resp.Array(resp.Array(resp.NullArray(), resp.NullArray())), resp.Array(resp.Array(resp.Array())), resp.Int(0), resp.Simple(""), resp.Err("")}
+		tails := c10values(env.Tier)
+		if len(tails) > 40 {
+			tails = tails[:40]
+		}
+		for ui, u := range units {
+			ub := resp.Encode(u)
+			var stream []byte
+			var want []resp.Value
+			for i := 0; i < 300; i++ {
+				stream = append(stream, ub...)
+				want = append(want, u)
+			}
+			for _, t := range tails {
+				stream = append(stream, resp.Encode(t)...)
+				want = append(want, t)
+			}
+			for _, buf := range []int{32, 4096} {
+				rep.Execs++
+				if sig, detail := c10decodeStream(stream, nil, buf, want); sig != "" {
+					fail(sig+" / after 300 repetitions of one message", fmt.Sprintf("unit %s (#%d), buffer %d: %s", u, ui, buf, detail), c10case{Kind: "repeat", Int: int64(ui)})
+				}
 			}
 		}
 	}
